@@ -300,7 +300,7 @@ fn run(ctx: &mut Ctx) {
         });
     }
     // (b) call sequences
-    let depth = if ctx.quick() { 3 } else { 4 };
+    let depth = if ctx.quick() { 3 } else if ctx.dev_profile() { 4 } else { 5 };
     ctx.bound("sequences", format!("all call sequences of length <= {} over 44 symbols (22 builder calls x 2 distinguishable contents): orders, repeats, overriding", depth));
     for len in 0..=depth {
         let total = 44usize.pow(len as u32);
